@@ -68,6 +68,24 @@ func (i *Index) Search(key types.Key) (BlockHandle, bool) {
 	return BlockHandle{}, false
 }
 
+// SearchLowerBound data block holding the first entry of this sstable that is
+// greater than or equal to the given key: the first block whose EndKey is not less than key
+func (i *Index) SearchLowerBound(key types.Key) (BlockHandle, bool) {
+	low, high := 0, len(i.Entries)-1
+	for low <= high {
+		mid := low + ((high - low) >> 1)
+		if types.CompareKeys(i.Entries[mid].EndKey, key) >= 0 {
+			if mid == 0 || types.CompareKeys(i.Entries[mid-1].EndKey, key) < 0 {
+				return i.Entries[mid].DataHandle, true
+			}
+			high = mid - 1
+		} else {
+			low = mid + 1
+		}
+	}
+	return BlockHandle{}, false
+}
+
 func (i *Index) Scan(start, end types.Key) []BlockHandle {
 	var res []BlockHandle
 	for _, entry := range i.Entries {
